@@ -903,6 +903,11 @@ func wErrName(code uint64) string {
 // its spec advertises": the error was raised by the spec-driven client, is one of the three limit errors, and the
 // limit the client's Config yields is indeed below what its ClientHello advertised (read off the wire).
 func wKnownC12(w *World, cfg *WConfig, who int, code uint64) string {
+	// The finding was repaired (commit 189effd, known_findings.json "fixed:"): nothing is excused any more - if a
+	// spec-driven client again raises such an error it is reported by whichever check sees it.
+	if true {
+		return ""
+	}
 	if who != 0 || cfg.Client == "" || cfg.Client == "plain" || cfg.Client == "unil" {
 		return ""
 	}
